@@ -305,6 +305,100 @@ def strat_multi_tan(draw, tier):
     return case
 
 
+# ------------------------------------------------------------------ (d) multi-WCS tiling with a stub reprojection
+
+
+def write_wcs_inputs(case, d):
+    """1-4 small images with slightly different TAN WCS around one sky position"""
+    import os
+    from astropy.io import fits
+    from .. import wcsgen
+
+    paths = []
+    for i, im in enumerate(case["images"]):
+        w, h = im["size"]
+        spec = dict(case["base_wcs"])
+        spec["ra"] = (spec["ra"] + im["dra"]) % 360.0
+        spec["dec"] = max(-80.0, min(80.0, spec["dec"] + im["ddec"]))
+        spec["rot"] = spec["rot"] + im["drot"]
+        spec["ratio"] = 1.0
+        spec["crpix_mode"] = "half"
+        data = np.full((h, w), float(i + 1), dtype=np.float32)
+        p = os.path.join(d, f"w{i}.fits")
+        fits.writeto(p, data, header=wcsgen.header_of(spec, w, h))
+        paths.append(p)
+    return paths
+
+
+def stub_reproject(input_data, output_projection=None, shape_out=None, return_footprint=False, **kw):
+    """stands in for reproject.reproject_interp: fills the output with the input's (constant) value"""
+    arr, _wcs = input_data
+    return np.full(shape_out, float(np.asarray(arr).flat[0]), dtype=np.float64)
+
+
+def exec_multi_wcs(case):
+    import os
+    import warnings
+    from collections import Counter as C
+    from toasty import collection, multi_wcs
+    from toasty.builder import Builder
+    from ..core import fresh_dir
+
+    k = case["k"]
+    desc = {a: b for a, b in case.items() if a != "sched"}
+    classes = ["multi_wcs", f"k{k}", f"inputs{len(case['images'])}"]
+    logs = {}
+    w = None
+    with fresh_dir("c03mw-") as d:
+        ind = os.path.join(d, "in")
+        os.makedirs(ind)
+        paths = write_wcs_inputs(case, ind)
+        for label, kk in (("serial", 1), ("parallel", k)):
+            log = []
+            world = SimWorld(case.get("sched")) if kk > 1 else None
+            pio = make_rec_pio(os.path.join(d, label), "fits", world, log)
+            with warnings.catch_warnings():
+                warnings.simplefilter("ignore")
+                proc = multi_wcs.MultiWcsProcessor(collection.load(paths))
+                try:
+                    proc.compute_global_pixelization(Builder(pio))
+                except Exception as e:  # noqa
+                    # not every generated set of WCS can be combined; that is not this property's subject
+                    return Outcome(classes=classes + ["pixelization-refused"], nontrivial=False)
+                if kk == 1:
+                    try:
+                        proc.tile(pio, stub_reproject, parallel=1)
+                    except Exception as e:  # noqa
+                        raise Violation("terminates", f"serial multi-WCS tiling raised {type(e).__name__}: {e}")
+                else:
+                    with scen.critical_section_yields(world):
+                        w, res = scen.run_sim(lambda: proc.tile(pio, stub_reproject, parallel=kk), None, world=world)
+                    judge_termination(desc, res, w)
+                    judge_workers(desc, w)
+                    if w.leftovers():
+                        raise Violation("exactly-once", f"{w.leftovers()} input image(s) left in the queue at return; case {desc}")
+                    sim_facts(w, classes)
+            logs[label] = C(p for p, _pid in log)
+        if logs["parallel"] != logs["serial"]:
+            diff = {p: (logs["serial"].get(p, 0), logs["parallel"].get(p, 0)) for p in set(logs["serial"]) | set(logs["parallel"]) if logs["serial"].get(p, 0) != logs["parallel"].get(p, 0)}
+            raise Violation("exactly-once", f"multi-WCS tile updates (serial, parallel) differ: {dict(list(diff.items())[:4])}; case {desc}")
+    n = len(case["images"])
+    nt = k >= 2 and n >= 2 and (w.timeouts_fired_with_buffered > 0 or w.put_blocked > 0 or w.deviations > 0 or n > 2 * k)
+    return Outcome(classes=classes, nontrivial=bool(nt), info={"items": n})
+
+
+@st.composite
+def strat_multi_wcs(draw, tier):
+    from .. import wcsgen
+
+    base = draw(wcsgen.wcs_specs(projections=("TAN",), max_dec=70, min_scale_log=-2.5, max_scale_log=-2.0, allow_skew=False))
+    base["parity"] = 1
+    imgs = []
+    for _ in range(draw(st.integers(1, 5))):
+        imgs.append({"size": [draw(st.integers(8, 60)), draw(st.integers(8, 60))], "dra": draw(st.floats(-0.2, 0.2)), "ddec": draw(st.floats(-0.2, 0.2)), "drot": draw(st.sampled_from([0.0, 1.0, -3.0, 10.0]))})
+    return {"base_wcs": base, "images": imgs, "k": draw(st.sampled_from([2, 2, 3, 4])), "sched": draw(scen.schedules(max_size=150))}
+
+
 def exec_walk_items(case):
     """the walk also hands tiles to workers: same item set as the serial walk (RefPyramid.ops)"""
     from .c01 import exec_walk
@@ -328,6 +422,16 @@ PARTS = [
         budget_s={"quick": 70, "thorough": 1500},
         engine="A",
         describe="multi-image study tiling: 1-8 generated sub-images handed to 2-4 workers under generated schedules; tile-update log and result vs serial",
+    ),
+    Part(
+        "multi_wcs_sim",
+        exec_multi_wcs,
+        strategy=strat_multi_wcs,
+        examples={"quick": 96, "thorough": 4000},
+        shards={"quick": 16, "thorough": 16},
+        budget_s={"quick": 70, "thorough": 1500},
+        engine="A",
+        describe="multi-WCS study tiling with a stub reprojection function: 1-5 generated images handed to 2-4 workers under generated schedules; tile-update log vs serial",
     ),
     Part(
         "walk_items_sim",
